@@ -4,7 +4,7 @@ Engine A on the full stack with a monitor on every datagram handed to a
 socket/transport.  Send histories = every sequence of <= 2 (quick) / 3
 program steps over {small messages both ways, each retry mode, fragmented,
 burst of 40, idle 0.5 s / 3 s, owner stall 0.3 s / 1.2 s}, under <= 1 network
-deviation, from three start states: fresh handshake; both sequence counters
+deviation, from four start states: application sends issued while the handshake is still under way ("early"); fresh handshake; both sequence counters
 preset 5 below the 16-bit wrap; and a REDUCED RING (SeqNum._max_sequence = 63,
 a configuration of the same code) in which every history wraps several times.
 The reduced ring is used for this monitor only: two datagrams with equal seq
@@ -68,8 +68,9 @@ class NonceMonitor(Monitor):
             self.__dict__.setdefault("_lastkey", {})[d.src if d.src != "s" else ("s", d.dst)] = key
         if key is None or typ == SH:
             self.clear += 1
-            if key is not None and typ != SH:
-                pass
+            if typ not in (SH, PacketType.CLIENT_HELLO.value):
+                self.flag("not-ciphertext", "a datagram other than the hellos is emitted without a session key (packet type %d)" % typ,
+                          "%s datagram #%d type %d len %d" % (d.src, d.id, typ, len(d.data)))
             return
         if typ == PacketType.CLIENT_HELLO.value and conn is not None and conn.status == ConnectionStatus.CONNECTING and not conn.isServer:
             self.clear += 1
@@ -142,8 +143,20 @@ def scenario(params, ch):
         patches.set(SeqNum, "_threshold", 31)
     w = None
     try:
-        w = World(order=order, latency=latency, chooser=ch, monitors=[mon, dm], dt=dt)
-        w.run_until_connected()
+        if start == "early":
+            # the application does not wait for the connection: it sends while the handshake is still under way
+            w = World(order=order, latency=max(latency, 6), chooser=ch, monitors=[mon, dm], dt=dt, fates=["drop", "delay8"])
+            w.fates = ["delay8"]
+            for mode in ("none", "best", "retry"):
+                app_send(w, dm, "c", MARK + b"early-" + mode.encode(), mode)
+            app_send(w, dm, "c", MARK * 90, "retry")
+            w.run_until_connected(limit=120)
+            w.fates = []
+            for mode in ("none", "best"):
+                app_send(w, dm, "c", MARK + b"after-" + mode.encode(), mode)
+        else:
+            w = World(order=order, latency=latency, chooser=ch, monitors=[mon, dm], dt=dt)
+            w.run_until_connected()
         w.run(2)
         if start == "near-wrap":
             c, s = w.clients[0].conn, w.server_conn(0)
@@ -189,9 +202,9 @@ def long_wrap_work(arg):
     try:
         w.run_until_connected()
         for t in range(n_ticks):
-            if t % 3 == 0:
-                app_send(w, dm, "c", MARK, "none")
-                app_send(w, dm, "s", MARK, "none")
+            # one message per frame and side: one datagram per frame, the counter wraps after 65535 frames
+            app_send(w, dm, "c", MARK, "none")
+            app_send(w, dm, "s", MARK, "none")
             w.tick()
         return mon.encrypted, mon.wraps, list(mon.violations), w.tickno
     finally:
@@ -207,6 +220,11 @@ def params_list(tier):
             if tier == "thorough" and n == 3 and sum(1 for s in p if s == "idle3") > 1:
                 continue
             progs.append(p)
+    for p in progs:
+        if len(p) <= 1:
+            out.append(("early", p, "cs", 1, 1.0 / 64))
+            if tier == "thorough":
+                out.append(("early", p, "sc", 0, 0.02))
     for start in ("fresh", "near-wrap", "ring63"):
         for p in progs:
             if "stream" in p and (start != "ring63" or p.count("stream") > 1 or (tier == "quick" and p[0] != "stream")):
@@ -237,7 +255,7 @@ def run(tier, seed):
                         v["message"] + " | params=%r deviations=%r" % (v["params"], v["labels"])]
     long_rows = []
     if tier == "thorough":
-        res = core.pmap("checks.c03", "long_wrap_work", [70000])
+        res = core.pmap("checks.c03", "long_wrap_work", [140000])
         for enc, wraps, viols, ticks in res:
             long_rows.append({"ticks": ticks, "encrypted_datagrams": enc, "wraps": wraps})
             for o, s, m in viols:
@@ -252,7 +270,7 @@ def run(tier, seed):
         "executions": st.executions, "by_deviations": st.by_cost, "configurations": len(plist), "capped": st.capped,
         "distinct_outcomes": len(st.outcomes), "long_wrap_histories": long_rows,
         "evaluations": st.executions, "distinct_nontrivial": len(st.outcomes),
-        "rule": "histories = all programs of <=%d steps over %r x start states {fresh, both counters preset to 65530, reduced ring 63} x <=1 deviation (drop/dup/delay8 of any datagram); "
+        "rule": "histories = all programs of <=%d steps over %r x start states {early sends during the handshake, fresh, both counters preset to 65530, reduced ring 63} x <=1 deviation (drop/dup/delay8 of any datagram); "
                 "every emitted datagram is checked by the monitor (reference AES-GCM decrypt with the 20-byte header as AAD, nonce table per session key, plaintext marker); outcomes = (encrypted seen, wrapped, #clear datagrams)" % (
                     2 if tier == "quick" else 3, STEPS),
         "exhaustive": not st.capped, "samples": st.samples[:4],
